@@ -1,0 +1,30 @@
+//go:build verif
+
+package proxy
+
+import (
+	"net"
+	"time"
+
+	"go.minekube.com/gate/pkg/edition/java/config"
+	"go.minekube.com/gate/pkg/util/netutil"
+)
+
+// Verification hooks for property C33 (no logic: constructor and thin forwarding methods).
+
+// C33ProxyProtocol exposes the PROXY protocol connection wrapper to the verification harness.
+type C33ProxyProtocol = proxyProtocol
+
+// C33NewProxyProtocol forwards to newProxyProtocol.
+func C33NewProxyProtocol(cfg *config.Config) (*C33ProxyProtocol, error) { return newProxyProtocol(cfg) }
+
+// C33WrapConnTimeout forwards to wrapConnTimeout (nil receiver allowed, as in production).
+func (p *proxyProtocol) C33WrapConnTimeout(conn net.Conn, readHeaderTimeout time.Duration) net.Conn {
+	return p.wrapConnTimeout(conn, readHeaderTimeout)
+}
+
+// C33WrapConn forwards to wrapConn.
+func (p *proxyProtocol) C33WrapConn(conn net.Conn) net.Conn { return p.wrapConn(conn) }
+
+// C33Trusted forwards to trustedNetworks.
+func (p *proxyProtocol) C33Trusted() netutil.TrustedNetworks { return p.trustedNetworks() }
